@@ -60,7 +60,7 @@ func (e *Engine) runWitness(cfg RunConfig, name string) (found bool, violated bo
 				}
 			}
 		}
-		if strings.Contains(out.String(), "panic:") {
+		if strings.Contains(out.String(), "panic:") && !strings.Contains(out.String(), "test timed out") {
 			rec["observed"] = map[string]interface{}{"panic": tail(out.String(), 1200)}
 			return true, true, rec
 		}
